@@ -6,14 +6,14 @@
 (*              Value/Scan and trailing-byte behaviour are logged alongside   *)
 (*  kind "dec": bytes written by the specification's writer (any byte order   *)
 (*              per element) read by the real UnmarshalWKB                    *)
-EXTENDS WKB, Json, IOUtils
+EXTENDS WKB, AbstractGeom, Json, IOUtils
 
 Trace == ndJsonDeserialize(IOEnv.VTRACE)
 S == 64
 VARIABLES sh, l
 vars == <<sh, l>>
 
-Same(a,b) == ToJson(a) = ToJson(b)
+Same(a,b) == SameTree(a,b)
 
 CheckEnc(e) ==
   LET r == Dec(e.bytes, 1) IN
